@@ -70,6 +70,8 @@ def run(chk, replay=None):
             return 'step %s' % fs(v)
         if kind == 'exp':
             return '{%s*exp(-%s*t)*u(t)}' % (str(v), str(rng.randint(1, 3)))
+        if kind == 'delta':
+            return '{%s*DiracDelta(t)}' % str(v)
         if kind == 'mix':
             a = rng.randint(1, 5)
             b = rng.randint(1, 5)
@@ -81,7 +83,11 @@ def run(chk, replay=None):
         orientations and listing orders (stamps must ACCUMULATE)"""
         v = lambda: fs(Fraction(rng.randint(1, 9), rng.randint(1, 3)) * rng.choice([1, -1]))   # noqa
         r = lambda: fs(Fraction(rng.randint(1, 9), rng.randint(1, 3)))   # noqa
-        t = k % 6
+        t = k % 8
+        if t == 6:     # an impulse and a step source in an initial-value problem
+            return (['C1 2 0 %s %s' % (r(), v()), 'V1 1 0 {%s*DiracDelta(t)}' % v().strip('{}'), 'R3 1 2 %s' % r(), 'R1 2 3 %s' % r(), 'R2 3 0 %s' % r(), 'I1 0 3 step %s' % v()], ['V1', 'I1'], 'ivp')
+        if t == 7:     # impulse current source, inductor with initial current
+            return (['L1 2 0 %s %s' % (r(), v()), 'I1 0 2 {%s*DiracDelta(t)}' % v().strip('{}'), 'R1 2 3 %s' % r(), 'R2 3 0 %s' % r(), 'V1 1 0 step %s' % v(), 'R3 1 2 %s' % r()], ['I1', 'V1'], 'ivp')
         if t == 0:
             return (['I1 0 2 step %s' % v(), 'I2 3 2 step %s' % v(), 'R1 2 3 %s' % r(), 'R2 3 0 %s' % r(), 'C1 2 0 %s' % r(), 'R3 2 0 %s' % r()], ['I1', 'I2'], 's')
         if t == 1:
@@ -94,14 +100,14 @@ def run(chk, replay=None):
             return (['V1 1 0 dc %s' % v(), 'R1 1 2 %s' % r(), 'I1 3 2 dc %s' % v(), 'I2 3 2 {%d*exp(-t)*u(t)}' % rng.randint(1, 5), 'R2 2 3 %s' % r(), 'R3 3 0 %s' % r(), 'C1 2 0 %s' % r()], ['V1', 'I1', 'I2'], 's')
         return (['V1 1 2 step %s' % v(), 'V2 2 0 step %s' % v(), 'I1 1 3 step %s' % v(), 'I2 0 3 step %s' % v(), 'R1 3 0 %s' % r(), 'C1 1 0 %s' % r(), 'R2 1 3 %s' % r()], ['V1', 'V2', 'I1', 'I2'], 's')
 
-    ntemplates = 6 if quick else 36
+    ntemplates = 8 if quick else 48
     for k in range(ncases + ntemplates):
         if k < ntemplates:
             lines, srcnames, ana = template(k)
             base = {'analysis': ana, 'subs': {}, 'lcapy': lines}
             subs = {}
-            kinds_used = ['step' if ' step ' in l else ('dc' if ' dc ' in l else 'exp') for l in lines if l.split()[0] in srcnames]
-            chk.count('stream', 'template-%d' % (k % 6))
+            kinds_used = ['step' if ' step ' in l else ('dc' if ' dc ' in l else ('delta' if 'DiracDelta' in l else 'exp')) for l in lines if l.split()[0] in srcnames]
+            chk.count('stream', 'template-%d' % (k % 8))
         else:
             base = gen_netlist.random_case(rng, analysis=rng.choice(['s', 's', 'ivp']), max_nodes=5)
             subs = base['subs']
@@ -111,9 +117,9 @@ def run(chk, replay=None):
             for ll in base['lcapy']:
                 tk = ll.split()
                 if tk[0][0] in 'VI' and tk[0][1:].isdigit():
-                    kd = rng.choice(['dc', 'ac', 'step', 'exp', 'mix', 'mix', 'step'])
+                    kd = rng.choice(['dc', 'ac', 'step', 'exp', 'mix', 'mix', 'step', 'delta'])
                     if base['analysis'] == 'ivp' and kd in ('dc', 'ac', 'mix'):
-                        kd = rng.choice(['step', 'exp'])
+                        kd = rng.choice(['step', 'exp', 'delta'])
                     ll = '%s %s %s %s' % (tk[0], tk[1], tk[2], src_expr(kd, rng))
                     srcnames.append(tk[0])
                     kinds_used.append(kd)
@@ -247,7 +253,12 @@ def run(chk, replay=None):
         except Exception as e:   # noqa
             chk.count('lcapy-error', 'regroup:' + type(e).__name__ + str(e)[:30])
         # (b) model: step-only circuits (and ivp): each source alone solved by the Lean model
-        if all(kd in ('step', 'extra') for kd in kinds_used) and all(' step ' in l for l in lines if l.split()[0] in srcnames) and not subs:
+        def mline(ll):
+            tk_ = ll.split(None, 3)
+            if len(tk_) == 4 and 'DiracDelta' in tk_[3]:
+                return '%s %s %s delta %s' % (tk_[0], tk_[1], tk_[2], fs(Fraction(tk_[3][1:-1].split('*DiracDelta')[0])))
+            return ll
+        if all(kd in ('step', 'extra', 'delta') for kd in kinds_used) and all((' step ' in l or 'DiracDelta' in l) for l in lines if l.split()[0] in srcnames) and not subs:
             an = ('ivp %s' if base['analysis'] == 'ivp' else 's %s') % fstr(sp)
             msum = {}
             okm = True
@@ -255,7 +266,7 @@ def run(chk, replay=None):
             for who in alone:
                 ml = []
                 for ll in lines:
-                    tk = ll.split()
+                    tk = mline(ll).split()
                     if tk[0] in srcnames and tk[0] != who:
                         tk[4] = '0'
                     if who != 'ICs' and tk[0][0] in 'CL' and len(tk) == 5:
